@@ -54,7 +54,7 @@ class Contract:
     def __init__(self, target, params=None, requires=(), ensures=(), exc_ensures=(), raises=None,
                  ret=None, may_raise=(), modifies=(), loops=None, props=(), assumed=False, replay=None,
                  inline=False, uf=False, cm_contract=None, kind="function", note="", witnesses=(),
-                 reads_heap=False, unroll_while=0, self_type=None, verify=True, inline_callees=False, cm_body=None, local_types=None, ghost_init=None, custom=None, opaque_externals=False, fresh_result=False, definitions=()):
+                 reads_heap=False, unroll_while=0, self_type=None, verify=True, inline_callees=False, cm_body=None, local_types=None, ghost_init=None, custom=None, opaque_externals=False, fresh_result=False, definitions=(), fid=None):
         self.target = target
         self.module, self.qual = target.split(":")
         self.params = params  # dict name -> Ty (None => from annotations)
@@ -76,6 +76,7 @@ class Contract:
         self.custom = custom
         self.opaque_externals = opaque_externals
         self.fresh_result = fresh_result
+        self._fid = fid
         self.definitions = list(definitions)  # definitional axioms assumed when verifying the body (not call-site obligations)
         self.verify = verify and not assumed
         if not assumed and not self.may_raise and raises:
@@ -83,7 +84,7 @@ class Contract:
 
     @property
     def fid(self):
-        return f"{self.module}:{self.qual}"
+        return self._fid or f"{self.module}:{self.qual}"
 
 
 class World:
